@@ -55,6 +55,11 @@ namespace OpenMEEG {
 
     bool Interface::is_mesh_orientations_coherent(const bool doublecheck) {
 
+        //  An interface without triangles is not a closed surface (and no point would ever see a non-zero solid angle).
+
+        if (nb_triangles()==0)
+            return false;
+
         /// compute the bounding box:
 
         BoundingBox bb;
